@@ -185,6 +185,8 @@ def body_call(rec, c):
         # the frame it was taken from is not altered
         rec.check(open(src, "rb").read() == src_bytes, f"{engine}:source-frame-file-modified", info)
         rec.check(system.config[0] != src, f"{engine}:velocities-written-into-the-source-frame", info)
+        # the phase point now refers to the one configuration that was written
+        rec.check(system.config[1] in (0, None), f"{engine}:new-configuration-referenced-with-a-frame-index-it-does-not-have", f"{system.config}")
         # positions, box, identities preserved
         tol = {"lammps": 1e-9, "cp2k": 5e-10, "turtlemd": 5e-10, "gromacs": 5e-10, "ase": 1e-12}[engine]
         rec.check(out["n"] == before["n"], f"{engine}:atom-count-changed", info)
